@@ -261,6 +261,28 @@ Section Unquote.
         end
     end.
 
+  (* c, multibyte, ss, err := unquoteChar(s, q) followed by the surrogate-pair
+     logic; the surrogate test comes before the error test (value is 0 whenever
+     err != nil).  The second unquoteChar call indexes ss[0]: Panic when ss is empty *)
+  Definition unq_first (s : str) (q : qinfo) : outcome (Z * bool * str) :=
+    match unquote_char s q with
+    | Err e => Err e
+    | Panic => Panic
+    | OutOfFuel => OutOfFuel
+    | Ok (c1, mb, ss) =>
+      if (sur_high <=? c1)%Z && (c1 <? sur_end)%Z then
+        if (sur_low <=? c1)%Z then Err ESurrogate
+        else match unquote_char ss q with
+             | Panic => Panic
+             | OutOfFuel => OutOfFuel
+             | Err _ => Err ESurrogate      (* cl = 0 < surLow *)
+             | Ok (cl, _, ss2) =>
+               if (cl <? sur_low)%Z || (sur_end <=? cl)%Z then Err ESurrogate
+               else Ok ((0x10000 + (c1 - sur_high) * 0x400 + (cl - sur_low))%Z, mb, ss2)
+             end
+      else Ok (c1, mb, ss)
+    end.
+
   (* the main loop of QuoteInfo.Unquote; [rbuf] is buf reversed *)
   Fixpoint unq_loop (fuel : nat) (q : qinfo) (s : str) (rbuf : str) (stripNL wasEsc : bool)
     : outcome str :=
@@ -282,27 +304,7 @@ Section Unquote.
             else unq_loop k q s1 (ch_nl :: rbuf) true false
           end
         else
-          (* c, multibyte, ss, err := unquoteChar(s, q); the surrogate test comes
-             before the error test (value is 0 whenever err != nil) *)
-          let first :=
-            match unquote_char s q with
-            | Err e => Err e
-            | Panic => Panic
-            | OutOfFuel => OutOfFuel
-            | Ok (c1, mb, ss) =>
-              if (sur_high <=? c1)%Z && (c1 <? sur_end)%Z then
-                if (sur_low <=? c1)%Z then Err ESurrogate
-                else match unquote_char ss q with
-                     | Panic => Panic
-                     | OutOfFuel => OutOfFuel
-                     | Err _ => Err ESurrogate      (* cl = 0 < surLow *)
-                     | Ok (cl, _, ss2) =>
-                       if (cl <? sur_low)%Z || (sur_end <=? cl)%Z then Err ESurrogate
-                       else Ok ((0x10000 + (c1 - sur_high) * 0x400 + (cl - sur_low))%Z, mb, ss2)
-                     end
-              else Ok (c1, mb, ss)
-            end in
-          match first with
+          match unq_first s q with
           | Err e => Err e
           | Panic => Panic
           | OutOfFuel => OutOfFuel
